@@ -222,6 +222,7 @@ func main() {
 	parallel(c.N(8000, 60000), func(i int) { runResolverCase(c, i) })
 	parallel(c.N(8000, 60000), func(i int) { runResolveCase(c, i) })
 	parallel(c.N(30, 300), func(i int) { revisionHistory(c, i) })
+	parallel(18, func(i int) { mirrorCase(c, i) })
 	c.Exhaustive(false) // parts 2 and 3 are sampled; part 1 is exhaustive up to dag_exhaustive_max_ids
 	samples.flush(c)
 	flushViolations(c)
